@@ -260,6 +260,8 @@ DIRECTED = [
     "handlers = [lambda *args, **kwargs: (args, kwargs), lambda first, second, /: first + second, lambda value, *rest, flag=None: (value, rest, flag)]\n",
     "def f():\n    from django.db.models import Q\n    from re import I, M\n    alpha=beta=gamma=delta=epsilon=zeta=eta=theta=iota=kappa=lam=mu=nu=xi=omicron=pi=rho=sigma=1\n    return [alpha,beta,gamma,delta,epsilon,zeta,eta,theta,iota,kappa,lam,mu,nu,xi,omicron,pi,rho,sigma,Q,I,M,alpha,beta,gamma,delta,epsilon,zeta,eta,theta,iota,kappa,lam,mu,nu,xi,omicron,pi,rho,sigma]\n",
     "x = 1\ndef f(x):\n    class C:\n        x = x\n    return C.x\nprint(f(10))\n",
+    "class Bus:\n    def register(*handlers, priority=0, label='x'):\n        return handlers, priority, label\n    @classmethod\n    def make(*, alpha_value, beta_value=1):\n        return alpha_value, beta_value\n    async def run(*, mode_name):\n        return mode_name\n    @staticmethod\n    def static_one(*, flag_name):\n        return flag_name\n    def only_kwargs(**options):\n        return options\n    def normal(self, first_arg, *, keyword_arg=None):\n        return first_arg, keyword_arg\n    @classmethod\n    def build(cls, *parts, joiner=''):\n        return joiner.join(parts)\nprint(Bus.register(1, 2, priority=3), Bus.static_one(flag_name=1))\n",
+    'def outer_function():\n    class Local:\n        def method(*args_tuple, keyword_one=1, keyword_two=2):\n            return args_tuple, keyword_one, keyword_two\n        def plain(*, only_keyword):\n            return only_keyword\n    return Local\n',
     'def f(text):\n    from re import I, M\n    from django.db.models import Q, F\n    flags = [I, M, Q, F, I, M, Q, F, I, M, Q, F, I | M]\n    alpha = beta = gamma = delta = epsilon = zeta = eta = theta = iota = kappa = lam = mu = nu = xi = 1\n    return [flags, alpha, beta, gamma, delta, epsilon, zeta, eta, theta, iota, kappa, lam, mu, nu, xi, text]\n',
     'from re import I, M\nfrom os import F_OK as F\nflags = [I, M, F, I, M, F, I, M, F, I | M]\nalpha = beta = gamma = delta = epsilon = zeta = eta = theta = iota = kappa = lam = mu = nu = xi = 1\nprint(flags, alpha, beta, gamma, delta, epsilon, zeta, eta, theta, iota, kappa, lam, mu, nu, xi)\n',
     'def g(B, A=2, *C, D=4, **E):\n    alpha = beta = gamma = delta = epsilon = zeta = eta = theta = iota = kappa = lam = mu = nu = xi = 1\n    return [A, B, C, D, E, A, B, C, D, E, alpha, beta, gamma, delta, epsilon, zeta, eta, theta, iota, kappa, lam, mu, nu, xi]\n',
